@@ -149,3 +149,9 @@ Theorem C08_source_impl_bounds :
   bounds_of "MappedGenericSequence<T,U> for Box<GenericArray<T,N>>" = Some ["N:ArrayLength"] /\
   bounds_of "FunctionalSequence<T> for Box<GenericArray<T,N>>" = Some ["N:ArrayLength"; "Self:GenericSequence<T,Item=T,Length=N>"].
 Proof. repeat split. Qed.
+
+(* default_boxed (src/impl_alloc.rs) is the boxed generate of T::default: one call per index, as for the stack
+   Default (regenerated; the allocation side is C16's) *)
+Theorem C08_source_default_boxed :
+  thin_of "GenericArray<T,N>" "default_boxed" = Some "Box :: < GenericArray < T , N > > :: generate (| _ | T :: default ())".
+Proof. reflexivity. Qed.
